@@ -168,3 +168,16 @@ pub fn catch<R>(f: impl FnOnce() -> R) -> Result<R, String> {
         }
     })
 }
+
+/// `has_impl!(Type: Bound)` - does `Type` satisfy `Bound`? Decided at compile time by inherent-method-over-
+/// trait-method resolution, observed at run time, so that "not implemented" is a value, not a build failure.
+#[macro_export]
+macro_rules! has_impl {
+    ($ty:ty : $($bound:tt)+) => {{
+        struct Probe<X: ?Sized>(::core::marker::PhantomData<X>);
+        trait Fallback { fn has(&self) -> bool { false } }
+        impl<X: ?Sized> Fallback for Probe<X> {}
+        impl<X: ?Sized + $($bound)+> Probe<X> { fn has(&self) -> bool { true } }
+        Probe::<$ty>(::core::marker::PhantomData).has()
+    }};
+}
